@@ -24,6 +24,10 @@ def harnesses(ctx):
                 "%d arbitrary raw u32 references, owning dictionary 0..14" % (2 if q else 3),
                 kernel="C12-c reference re-stamping: system references untouched, others point into the owning dictionary",
                 stubs=["alloc::fmt::format -> empty string"], timeout_s=900 if q else 2400, mem_gb=8 if q else 16),
+        Harness("c12_grammar_merge_contiguous", "dic__grammar", ["Grammar::merge"],
+                "merged grammar of 3 POS (2 system + 1 registered by a plugin / earlier dictionary), user table of 2 POS; all five one-letter tags symbolic, every equality pattern between the user table and the earlier POS",
+                kernel="C12-c the offset recorded at merge time is where the user dictionary's POS table lands, entry by entry - also when it repeats POS that already exist",
+                timeout_s=900, mem_gb=12),
     ] + [
         Harness("c12_pos_rebase_d%d" % d, "dic__lexicon_set",
                 ["LexiconSet::get_word_info_subset", "Lexicon::get_word_info", "WordInfos::get_word_info", "WordInfos::parse_word_info",
@@ -33,7 +37,7 @@ def harnesses(ctx):
                 assumptions=["offsets recorded at merge time satisfy num_system_pos <= off1 <= off2 <= 32767", "rebased id fits u16 (documented POS limit)",
                              "dictionary number concrete per harness (0, 1, 2)"],
                 stubs=["alloc::fmt::format -> empty string"], fs_array=True, timeout_s=1200, mem_gb=16,
-                outside=["the offsets actually recorded by merge_user_dictionary when plugins registered POS first"])
+                outside=["that merge_user_dictionary records pos_list.len() before Grammar::merge (two lines, by reading); Grammar::merge itself: c12_grammar_merge_contiguous"])
         for d in (0, 1, 2)
     ] + [
         Harness("c12_split_restamp_" + nm, "dic__lexicon_set",
@@ -55,6 +59,6 @@ MANIFEST = dict(
     text=("Solver-decided for all values: (a) WordId packing is injective and round-trips for every dictionary number <= 15 and 28-bit word number, checked() rejects exactly the rest, "
           "dictionary 15 <=> OOV (the -1 of Morpheme::dictionary_id); (b) LexiconSet accepts exactly 14 user dictionaries and stamps each with its position; "
           "(c) split/word-structure references are re-stamped with the owning dictionary unless they point to the system dictionary, and a user word's POS id is rebased by "
-          "id - num_system_pos + offset[dictionary] while system words/ids are unchanged. The offsets recorded at load time (plugins registering POS first) are outside."),
+          "id - num_system_pos + offset[dictionary] while system words/ids are unchanged. Grammar::merge appends a user dictionary's POS table entry by entry at the recorded offset for every equality pattern with POS that already exist (plugins, earlier dictionaries). That merge_user_dictionary records the offset before merging is read, not decided."),
     note="Crafted one-word lexicon images; offsets assumed ordered as merge_user_dictionary records them. Trusted: Kani/CBMC/cadical.",
 )
